@@ -567,6 +567,11 @@ class Effects:
             if e.attr == "_data" and isinstance(e.value, ast.Name) and e.value.id == "self" \
                     and f.cls is not None and f.cls.name == "MachineModel":
                 return Lab(0, "MODEL MachineModel._data")
+            # any other mutable container the model object creates in its constructor and keeps (a memo table, ...): it lives
+            # as long as the model and is seen by everything analysed with it
+            if isinstance(e.value, ast.Name) and e.value.id == "self" and f.cls is not None and f.cls.name == "MachineModel" \
+                    and f.name != "__init__" and e.attr in self._model_state_attrs():
+                return Lab(0, "MODELSTATE MachineModel.%s" % e.attr)
             base = self.L(f, e.value, env)
             fld = self.field.get(e.attr.lstrip("_"), FRESH)
             if isinstance(e.value, ast.Name) and e.value.id == "self" and f.name == "__init__":
@@ -627,6 +632,19 @@ class Effects:
         if isinstance(e, ast.Await):
             return self.L(f, e.value, env)
         return FRESH
+
+    def _model_state_attrs(self):
+        if not hasattr(self, "_msa"):
+            out = set()
+            init = self.repo.classes["MachineModel"].methods.get("__init__") if "MachineModel" in self.repo.classes else None
+            if init is not None:
+                for n in ast.walk(init.node):
+                    if isinstance(n, ast.Assign) and len(n.targets) == 1 and isinstance(n.targets[0], ast.Attribute) \
+                            and isinstance(n.targets[0].value, ast.Name) and n.targets[0].value.id == "self" \
+                            and n.targets[0].attr != "_data" and self._is_mutable_literal(n.value):
+                        out.add(n.targets[0].attr)
+            self._msa = out
+        return self._msa
 
     def _instance_assigned(self, cls, attr):
         """Is the class attribute rebound per instance in the constructor?"""
